@@ -7,7 +7,7 @@ import unitlib as U
 from common import Str, sx
 
 ID = 'C19'
-LEAN_MODULES = ['Cellml.Props.C19', 'Cellml.Tie.Units', 'Cellml.Tie.ConvertVarSym', 'Cellml.Tie.GenBConvertVar', 'Cellml.Props.C19Gen']
+LEAN_MODULES = ['Cellml.Props.C19', 'Cellml.Tie.Units', 'Cellml.Tie.ConvertVarSym', 'Cellml.Tie.GenBConvertVar', 'Cellml.Props.C19Gen', 'Cellml.Tie.ConvRule', 'Cellml.Props.C19GenR', 'Cellml.Props.C19GenRIdem', 'Cellml.Props.C19GenRCases']
 N = {'quick': 300, 'thorough': 10000}
 RULE = ('one case = a random unit family (3-4 clusters of DIFFERENT dimension, each with 2-4 user units of different '
         'scale/spelling plus built-in and composite spellings; 1-2 stores on one registry) and a script of 2-3 '
